@@ -181,6 +181,19 @@ class Reader:
     def _leaf(self, ex, body, kind, obj):
         if body is not self.body:
             return None
+        if kind == "phi":
+            # a running index: a local re-assigned inside a loop, used inside that loop
+            at = getattr(ex, "_at", None)
+            if at is not None:
+                # innermost loop that contains the use AND a definition of the local
+                best = None
+                for h, bl in body.natural_loops().items():
+                    if at[0] in bl and any(d[1][0] in bl for d in self.pv.defs(body).get(obj, [])):
+                        if best is None or len(bl) < len(best[1]):
+                            best = (h, bl)
+                if best is not None:
+                    return S("idx#%d@%d" % (obj, best[0]))
+            return None
         if kind == "place":
             pl = obj
             idx = [x for x in pl.fields() if x != "*" and x[0] in ("idx", "cidx")]
@@ -260,7 +273,7 @@ class Reader:
                     out.append((sb, tg))
         return out
 
-    def bytes_of_operand(self, op, at=None):
+    def bytes_of_operand(self, op, at=None, include_ranges=False):
         """byte offsets (canonical affine keys -> printable) of the input bytes the VALUE of an operand is computed from: through
         the expression where it is arithmetic, through the provenance engine where it passes constructors / conversions.
         Bytes that only determine an OFFSET (decoded length fields inside an index expression) are not part of the value."""
@@ -273,8 +286,8 @@ class Reader:
         pvi = Prov(self.prog, inline=False)
         for pos in self.value_accesses(pvi.of_operand(self.body, op)):
             acc = self.accesses[pos]
-            if acc["lo"] is not None and acc["kind"] == "one":
-                out[self.key(acc["lo"])] = "byte[%s]" % self.fmt(acc["lo"])
+            if acc["lo"] is not None and (acc["kind"] == "one" or include_ranges):
+                out[self.key(acc["lo"])] = "byte[%s%s]" % (self.fmt(acc["lo"]), "" if acc["kind"] == "one" else "..")
         # drop the length fields: constant-offset bytes that occur inside the offset of another byte of the set
         inner = set()
         for k in out:
@@ -285,6 +298,27 @@ class Reader:
         if any(k not in inner for k in out):
             out = {k: v for k, v in out.items() if k not in inner}
         return out, e
+
+
+def ctor_param_fields(prog, ctor, owner_rx):
+    """parameter index -> fields of the constructed record that are initialised from it"""
+    pv = Prov(prog)
+    out = {}
+    for pos, st in ctor.stmts():
+        if st.k == "assign" and st.rv["k"] == "agg" and st.rv.get("agg") == "adt" and re.search(owner_rx, st.rv.get("adt", "")):
+            for f, o in zip(st.rv["fields"], st.rv["ops"]):
+                for p in params_of(pv.of_operand(ctor, o), ctor.id):
+                    out.setdefault(p, set()).add(f)
+    # delegating constructors (try_new -> new)
+    if not out:
+        for bi, t in ctor.calls():
+            tg = prog.bodies.get(t.callee.res) if t.callee.res else None
+            if tg is not None and tg.name == "new" and tg.id != ctor.id:
+                inner = ctor_param_fields(prog, tg, owner_rx)
+                for i, a in enumerate(t.args):
+                    for p in params_of(pv.of_operand(ctor, a), ctor.id):
+                        out.setdefault(p, set()).update(inner.get(i + 1, set()))
+    return out
 
 
 def field_stores(prog, body, owner_rx):
@@ -565,11 +599,28 @@ def _norm(a):
     return {k: v for k, v in a.items() if v != 0}
 
 
-def check_record_layout(ck, rule, prog, wbody, rbody, owner_rx, label, reader_input=1):
+def check_record_layout(ck, rule, prog, wbody, rbody, owner_rx, label, reader_input=1, running_base=False, size_field=True):
     """the byte offsets the decoder reads are field boundaries of the layout the encoder writes; the declared lengths agree with
     what is emitted; the decoder's length validations are the encoder's total size"""
     W = Writer(prog, wbody, owner_rx)
     R = Reader(prog, rbody, reader_input)
+    if running_base:
+        # the decoder walks a sequence of records with one running index: offsets are taken relative to the index value at
+        # the top of the outermost loop (the start of the current record)
+        loops = rbody.natural_loops()
+        if loops:
+            h0 = max(loops, key=lambda h: len(loops[h]))
+            for pos, acc in R.accesses.items():
+                for fld_ in ("lo", "hi"):
+                    a = acc.get(fld_)
+                    if isinstance(a, dict):
+                        bs = [k for k in a if k != () and str(k).startswith("idx#") and str(k).endswith("@%d" % h0) and a[k] == 1]
+                        if bs:
+                            acc[fld_] = {k: v for k, v in a.items() if k not in bs}
+                            acc["based"] = True
+                if acc.get("based") and not any(str(k).startswith("idx#") for k in (acc["lo"] or {}) if k != ()):
+                    acc["loop"] = False
+            R.base_syms = {"@%d" % h0}
     if W.problems or not W.segments or any(s["lo"] is None or s["hi"] is None for s in W.segments):
         ck.undecided(rule, "%s/writer" % label, "layout written by %s not recognised (%s)" % (wbody.short, "; ".join(W.problems) or "a segment width is not affine"), where=wbody.where())
         return 0
@@ -577,7 +628,9 @@ def check_record_layout(ck, rule, prog, wbody, rbody, owner_rx, label, reader_in
     segs = W.segments
     # ---- writer: declared total size == bytes emitted
     s0 = segs[0]
-    if s0["value"] is not None and affine(s0["value"]) is not None:
+    if not size_field:
+        pass
+    elif s0["value"] is not None and affine(s0["value"]) is not None:
         ok = _norm(affine(s0["value"])) == _norm(W.total)
         ck.ob(rule, "%s/declared-size" % label, ok, "%s declares a record size of %s and emits %s bytes" % (wbody.short, _afmt(_norm(affine(s0["value"]))), _afmt(_norm(W.total))), where=wbody.where(s0["line"]))
         n += 1
@@ -586,9 +639,10 @@ def check_record_layout(ck, rule, prog, wbody, rbody, owner_rx, label, reader_in
     # ---- writer: a declared length field is followed by exactly that many bytes
     for i, sg in enumerate(segs[:-1]):
         v = affine(sg["value"]) if sg["value"] is not None else None
-        nxt = segs[i + 1]
         if v is not None and len([k for k in v if k != ()]) == 1 and v.get((), 0) == 0:
             sym = [k for k in v if k != ()][0]
+            later = [x for x in segs[i + 1:] if sym in (_norm(affine(x["width"])) or {})]
+            nxt = later[0] if later else segs[i + 1]
             w = _norm(affine(nxt["width"]))
             if w is not None and set(w) == {sym}:
                 per = w[sym] / v[sym]
@@ -635,6 +689,89 @@ def check_record_layout(ck, rule, prog, wbody, rbody, owner_rx, label, reader_in
             ok_lo = any(_inside(lo, bl, bh) for bl, bh in zip(bounds_lo, bounds_hi))
         key = "%s/read/%s" % (label, _afmt(_norm(acc["lo"])).replace(" ", ""))
         ck.ob(rule, key, ok_lo and ok_hi, "%s reads [%s, %s) - %s" % (rbody.short, _afmt(lo), _afmt(hi), "a field of the layout %s writes" % wbody.short if ok_lo and ok_hi else "NOT aligned with the fields %s writes (%s)" % (wbody.short, ", ".join("[%s,%s)" % (_afmt(a), _afmt(b)) for a, b in zip(bounds_lo, bounds_hi)))), where=rbody.where(acc["line"]))
+    # ---- element loops: the running index starts where the encoder's element block starts, the elements are read as
+    #      consecutive bytes from it, and it advances by the element width
+    groups = {}
+    for pos, acc in sorted(R.accesses.items()):
+        if acc["loop"] and acc["lo"] is not None:
+            idxs = [k for k in acc["lo"] if k != () and str(k).startswith("idx#")]
+            if len(idxs) == 1 and len([k for k in acc["lo"] if k != ()]) == 1 and acc["lo"][idxs[0]] == 1:
+                groups.setdefault(idxs[0], []).append((acc["lo"].get((), 0), acc))
+    for isym, accs in sorted(groups.items()):
+        L = int(isym[4:].split("@")[0])
+        offs = sorted(int(o) for o, _ in accs)
+        width = len(offs)
+        consecutive = offs == list(range(width))
+        lp = rbody.loop_of(accs[0][1]["bb"])
+        steps = []
+        for kind, dpos, d in R.pv.defs(rbody).get(L, []):
+            if lp is not None and dpos[0] in lp[1]:
+                e = R.ex.rvalue(rbody, d, 0, dpos) if kind == "assign" else ("u", "call")
+                a = affine(e)
+                steps.append(a.get((), None) if a is not None and a.get(isym) == 1 and set(a) <= {isym, ()} else None)
+        entry = None
+        if lp is not None:
+            pre = [p_ for p_ in rbody.pred[lp[0]] if p_ not in lp[1]]
+            if len(pre) == 1:
+                R.ex._memo.clear()
+                ea = affine(R.ex.local(rbody, L, 0, (pre[0], 10 ** 6)))
+                if ea is not None and getattr(R, "base_syms", None):
+                    ea = {k: v for k, v in ea.items() if not (k != () and any(str(k).endswith(b_) for b_ in R.base_syms) and v == 1)}
+                entry = _norm(_rename(ea, rename))
+        seg = [sg for sg in segs if entry is not None and _norm(sg["lo"]) == entry]
+        n += 1
+        per = None
+        if seg:
+            w = _norm(affine(seg[0]["width"]))
+            syms = [k for k in (w or {}) if k != ()]
+            if w is not None and len(syms) == 1 and w.get((), 0) == 0:
+                per = w[syms[0]]
+        ok = consecutive and bool(seg) and steps == [width] and per == width
+        ck.ob(rule, "%s/element-loop" % label, ok, "%s reads elements of %d consecutive byte(s) starting at %s and advancing by %s per element; %s writes the element block at %s with %s byte(s) per element" % (
+            rbody.short, width, _afmt(entry), steps, wbody.short, _afmt(_norm(seg[0]["lo"])) if seg else "no matching offset", per), where=rbody.where(accs[0][1]["line"]))
+    # ---- each decoded field is filled from the bytes where the encoder put THAT field
+    def seg_fields_at(off):
+        o = _norm(_rename(dict(off), rename))
+        if o is None:
+            return None
+        for sg in segs:
+            if _inside(o, _norm(sg["lo"]), _norm(sg["hi"])) or o == _norm(sg["lo"]):
+                return sg["fields"]
+        return set()
+    assoc = []
+    for fld, bb, st in field_stores(prog, rbody, owner_rx):
+        own, _e = R.bytes_of_operand(st.ops[0], (bb, 0)) if st.ops else ({}, None)
+        used = dict(own)
+        for sb, tg in R.guard_edges(bb):
+            x = rbody.blocks[sb].term
+            syms, _e2 = R.bytes_of_operand(x.discr, (sb, len(rbody.blocks[sb].stmts)))
+            used.update(syms)
+        assoc.append((fld, st.line, used))
+    pvi = Prov(prog, inline=False)
+    for bi, t in rbody.calls():
+        tg = prog.bodies.get(t.callee.res) if t.callee.res else None
+        if tg is None or tg.name not in ("new", "try_new") or not re.search(owner_rx, (tg.impl_self or {}).get("s", "") + tg.locals[0]["s"]):
+            continue
+        pf = ctor_param_fields(prog, tg, owner_rx)
+        for i, a in enumerate(t.args):
+            flds = pf.get(i + 1)
+            if not flds:
+                continue
+            used, _e = R.bytes_of_operand(a, (bi, len(rbody.blocks[bi].stmts)), include_ranges=True)
+            for f in sorted(flds):
+                assoc.append((f, t.line, used))
+    for fld, line, used in assoc:
+        if not used:
+            continue
+        wrong = []
+        for k, name in sorted(used.items(), key=lambda kv: kv[1]):
+            sf = seg_fields_at(dict(k))
+            if sf is None:
+                continue
+            if fld not in sf:
+                wrong.append("%s (the encoder stores %s there)" % (name, "/".join(sorted(sf)) or "nothing"))
+        n += 1
+        ck.ob(rule, "%s/field/%s" % (label, fld), not wrong, "%s fills `%s` from %s%s" % (rbody.short, fld, ", ".join(sorted(used.values())[:6]), "" if not wrong else ": " + "; ".join(wrong[:3])), where=rbody.where(line))
     # ---- length validations
     total = _norm(W.total)
     for d, l, r in guards_pre:
@@ -683,3 +820,39 @@ def _zeroings(total):
                 a[sname] = total[sname]
         out.append({k: v for k, v in a.items() if v != 0})
     return out
+
+
+def check_fixed_part_validation(ck, rule, prog, rbody, label, reader_input=1):
+    """reader-only (for layouts the crate does not write, e.g. binary v1): a CONSTANT bound of a length validation equals the end
+    of the fixed-offset part the decoder reads - a larger constant rejects valid short records, a smaller one lets a read run past
+    the input"""
+    R = Reader(prog, rbody, reader_input)
+    fixed_end = 0
+    for pos, acc in R.accesses.items():
+        if acc["loop"] or acc["lo"] is None:
+            continue
+        if set(acc["lo"]) <= {()}:
+            hi = acc["hi"] if isinstance(acc["hi"], dict) and set(acc["hi"]) <= {()} else None
+            end = hi.get((), 0) if hi is not None else acc["lo"].get((), 0) + (4 if acc["kind"] == "from" else 0)
+            fixed_end = max(fixed_end, int(end))
+    n = 0
+    for sb in sorted(rbody.reach):
+        x = rbody.blocks[sb].term
+        if x.k != "switch" or x.discr.place is None:
+            continue
+        for kind, dpos, d in R.pv.defs(rbody).get(x.discr.place.local, []):
+            if kind != "assign" or d.rv["k"] != "bin" or d.rv["op"] not in ("Lt", "Le", "Gt", "Ge"):
+                continue
+            l = R.ex.operand(rbody, d.rv["l"], 0, dpos)
+            r = R.ex.operand(rbody, d.rv["r"], 0, dpos)
+            other = r if l == S("LEN") else l if r == S("LEN") else None
+            a = affine(other) if other is not None else None
+            if a is None or not set(a) <= {()}:
+                continue
+            c = int(a.get((), 0))
+            need = fixed_end if d.rv["op"] in ("Lt", "Ge") and l == S("LEN") or d.rv["op"] in ("Gt", "Le") and r == S("LEN") else fixed_end - 1
+            n += 1
+            ck.ob(rule, "%s/fixed-part/%d" % (label, c), c == need, "%s rejects input shorter than %d byte(s); the fixed-offset part it reads ends at byte %d%s" % (rbody.short, c, fixed_end, "" if c == need else (": valid records of %d..%d bytes are rejected" % (fixed_end, c - 1) if c > need else ": reads beyond the validated length")), where=rbody.where(d.line))
+    if not n:
+        ck.undecided(rule, "%s/fixed-part" % label, "no constant length validation recognised in %s" % rbody.short, where=rbody.where())
+    return n
